@@ -724,4 +724,39 @@ theorem find_unique (l : List Nat) (p : Nat → Bool) (u : Nat) (hu : u ∈ l) (
       simp only [List.find?_cons, hy]
       exact ih hu' (fun z hz hne => hother z (List.mem_cons_of_mem _ hz) hne)
 
+/-! ### deepening pass: error-freeness without distinctness, table lookup -/
+
+/-- when every element passes, the zip loop raises nothing (no distinctness of members needed) -/
+theorem assignZip_noerr (a : Attr) (chk : Bool) (e : Err) (us : List Nat) (os : List Obj) (h : Heap)
+    (hok : ∀ o ∈ os, Passes chk o) : (assignZip a chk e us os h).2 = none := by
+  induction us generalizing os h with
+  | nil => cases os <;> rfl
+  | cons u us ih =>
+    cases os with
+    | nil => rfl
+    | cons o os =>
+      rw [assignZip_cons a chk e u us o os h (hok o List.mem_cons_self)]
+      exact ih os _ (fun o' ho' => hok o' (List.mem_cons_of_mem _ ho'))
+
+theorem assignAll_noerr (a : Attr) (o : Obj) (ho : o.rej = none) (us : List Nat) (h : Heap) :
+    (assignAll a o us h).2 = none := (assignAll_spec a o ho us h).1
+
+/-- the element-wise branch either refuses on the length (world untouched) or, when every element passes, raises nothing -/
+theorem seqBranch_err_unchanged (s : Setter) (w : World) (v : Val) (hl : s.lenCheck = true)
+    (hok : ∀ o ∈ v.items, Passes s.elemEngineCheck o) (he : (seqBranch s w v).2 ≠ none) : (seqBranch s w v).1 = w := by
+  by_cases hlen : v.items.length = w.members.length
+  · exfalso; apply he
+    have hb : (s.lenCheck && v.items.length != w.members.length) = false := by simp [hlen]
+    simp only [seqBranch, hb, World.withHeap, Bool.false_eq_true, if_false]
+    exact assignZip_noerr _ _ _ _ _ _ hok
+  · rw [seqBranch_wrong_length s w v hl hlen]
+
+theorem findDesc_mem {tbl : List Descriptor} {cls name : String} {d : Descriptor} (h : findDesc tbl cls name = some d) :
+    d ∈ tbl ∧ d.cls = cls ∧ d.name = name := by
+  unfold findDesc at h
+  have hm := List.mem_of_find?_eq_some h
+  have hp := List.find?_some h
+  simp only [Bool.and_eq_true, beq_iff_eq] at hp
+  exact ⟨hm, hp.1, hp.2⟩
+
 end Cherab.Groups
